@@ -593,7 +593,7 @@ def in_c_fragment(e):
     if k == "veclit":
         return all(in_c_fragment(a) for a in e[1])
     if k == "fn":
-        return e[1] is None and in_c_fragment(e[3])
+        return in_c_fragment(e[3])
     if k == "invoke":
         return in_c_fragment(e[1]) and all(in_c_fragment(a) for a in e[2])
     return False
@@ -625,7 +625,7 @@ def coq_cexpr(e):
     if k == "veclit":
         return f"({QC}CCall PVec {L_(e[1])})"
     if k == "fn":
-        return f"({QC}CFn {G.lst([G.n(p) for p in e[2]], 'N')} {coq_cexpr(e[3])})"
+        return f"({QC}CFn {G.opt(e[1], G.n, 'N')} {G.lst([G.n(p) for p in e[2]], 'N')} {coq_cexpr(e[3])})"
     if k == "invoke":
         return f"({QC}CInvoke {coq_cexpr(e[1])} {L_(e[2])})"
     raise ValueError(k)
@@ -655,6 +655,9 @@ def closure_programs(rng, n):
             LET(F, FN([a], FN([b], FN([c], VEC(L(a), L(b), L(c))))), INV(INV(INV(L(F), T(k1)), T(k2)), T(k3))),
             # closures stored in a vector and called later, effects inside the bodies
             LET(a, T(k1), LET(V, VEC(FN([], T(L(a))), FN([b], VEC(L(a), T(L(b))))), IF(L(a), INV(FN([c], L(c)), L(a)), K(None)))),
+            # a named fn* calling itself (recursion through its own name), with effects per call
+            INV(FN([a, b], IF(P("lt", L(a), K(rng.randint(1, 3))), INV(L(F), P("inc", L(a)), P("conj", L(b), T(L(a)))), L(b)), name=F), K(0), VEC()),
+            LET(c, k1, INV(FN([a], IF(P("lt", L(a), K(2)), VEC(L(c), INV(L(E), P("inc", L(a)))), T(L(a))), name=E), K(0))),
             # shadowing of a captured name by a parameter and by an inner let
             LET(a, k1, INV(FN([a], LET(a, P("inc", L(a)), INV(FN([], L(a))))), P("inc", L(a)))),
         ]
